@@ -167,11 +167,32 @@ fn thread_body(env: Rc<Env>, tid: u8) {
         cx.results[pc] = res;
         rec(tid, pc, HK::Ret, res);
     }
-    // leftover Arc handles are leaked deliberately (dropping them would add branch points the
-    // program did not ask for); loom must then report the leak.
-    for hs in cx.arcs.drain(..) {
-        for h in hs {
-            std::mem::forget(h);
+    // leftover Arc handles / receivers are forgotten by `Ctx::drop` (dropping them would perform
+    // loom operations the program did not ask for); loom must then report the leak.
+}
+
+impl Drop for Ctx {
+    fn drop(&mut self) {
+        for hs in self.arcs.drain(..) {
+            for h in hs {
+                std::mem::forget(h);
+            }
+        }
+        for rx in self.rx.drain(..).flatten() {
+            std::mem::forget(rx);
+        }
+    }
+}
+
+impl Drop for Env {
+    fn drop(&mut self) {
+        for rx in self.receivers.borrow_mut().drain(..).flatten() {
+            std::mem::forget(rx);
+        }
+        for slots in self.arc_init.borrow_mut().drain(..) {
+            for h in slots.into_iter().flatten() {
+                std::mem::forget(h);
+            }
         }
     }
 }
